@@ -175,12 +175,18 @@ func runSolver(ctx context.Context, s solverSpec, file string, ms int) (status, 
 // coverage of a case split depends only on the state it was taken in
 var (
 	covMu    sync.Mutex
-	covCache = map[string]string{}
+	covCache = map[string]*covEntry{}
 )
+
+type covEntry struct {
+	once   sync.Once
+	status string
+	ms     int64
+}
 
 func solve(workDir string, idx int, fx *FuncCtx, ob *Obligation, probes []string, timeoutMs int, stringsTheory bool) *Result {
 	if len(ob.Paths) > 1 {
-		first := timeoutMs / 4
+		first := 1500 // a short whole attempt settles the easy majority; the case split is the main route otherwise
 		r := solveOne(workDir, idx, fx, ob, probes, first, stringsTheory, "")
 		if r.Status == "discharged" || r.Status == "refuted" {
 			return r
@@ -194,17 +200,20 @@ func solve(workDir string, idx int, fx *FuncCtx, ob *Obligation, probes []string
 		cov.Kind, cov.Goal = "pathcov", or(ob.Paths...)
 		covKey := fx.fn.String() + "|" + ob.Reach + "|" + strings.Join(ob.Paths, "|")
 		covMu.Lock()
-		known, seen := covCache[covKey]
-		covMu.Unlock()
-		var cr *Result
-		if seen {
-			cr = &Result{Status: known}
-		} else {
-			cr = solveOne(workDir, idx*100+1999999, fx, &cov, nil, 4000, stringsTheory, "")
-			covMu.Lock()
-			covCache[covKey] = cr.Status
-			covMu.Unlock()
+		ent := covCache[covKey]
+		if ent == nil {
+			ent = &covEntry{}
+			covCache[covKey] = ent
 		}
+		covMu.Unlock()
+		ent.once.Do(func() {
+			c := solveOne(workDir, idx*100+1999999, fx, &cov, nil, 4000, stringsTheory, "")
+			ent.status, ent.ms = c.Status, c.Ms
+			if c.Query != "" {
+				os.Remove(c.Query)
+			}
+		})
+		cr := &Result{Status: ent.status, Ms: ent.ms}
 		paths := ob.Paths
 		if cr.Status != "discharged" {
 			if len(ob.PathsLast) < 2 {
@@ -480,7 +489,11 @@ func dischargeAll(workDir string, fx *FuncCtx, probes []string, timeoutMs, worke
 		go func() {
 			defer wg.Done()
 			defer func() { <-sem }()
-			results[i] = solve(workDir, i, fx, ob, probes, timeoutMs, stringsTheory)
+			t := timeoutMs
+			if fx.shortTimeout != nil && fx.shortTimeout(ob.Name) && t > 5000 {
+				t = 5000
+			}
+			results[i] = solve(workDir, i, fx, ob, probes, t, stringsTheory)
 		}()
 	}
 	wg.Wait()
